@@ -17,3 +17,13 @@ CHECKS = {
         units=[unit("props", ["Auth"], "C01")],
     ),
 }
+
+CHECKS["C02"] = dict(
+    level="exploration",
+    rule="rapid-generated two-party scripts (client send / target send / concurrent both / client half-close / target half-close / sync) over real loopback TCP "
+         "through the real StreamServe+StreamHandler; generated cipher, address form (IPv4, IPv6, hostname, IP-literal domain), first-chunk layout, chunk plans "
+         "(1..16383 incl. boundaries), TCP write segmentation and pacing, 0..120 KB (thorough 2 MiB) per send. Non-trivial = >=2 chunks in some direction, or a "
+         "half-close followed by traffic in the opposite direction, or an address split across chunks / coalesced with data. Distinct = canonical case JSON.",
+    assumptions=["loopback only: no loss or reordering below TCP", "interleavings are those the kernel and scheduler produce under generated pacing"],
+    units=[unit("props", ["Relay"], "C02")],
+)
